@@ -10,6 +10,9 @@ import CaddyModel.C18.MapH
 import CaddyModel.C18.Headers
 import CaddyModel.C18.RwMods
 import CaddyModel.C18.HostGlue
+import CaddyModel.C18.Chain
+import CaddyModel.C18.Tpl
+import CaddyModel.C18.CfEnv
 
 namespace CaddyModel.C18
 
@@ -336,5 +339,144 @@ theorem expansion_of_an_expansion_is_not_the_expansion :
 set_option maxRecDepth 100000 in
 example : hostServe false ⟨str "site.example", [], [], str "SITE.example", str "SITE.example"⟩
     (str "{env.VERIF_C18_SITE}") (str "{http.request.header.X-Tenant}") = some (true, true) := by decide
+
+/-! ### consumers in a row: vars → map → headers → static_response -/
+
+theorem onlyTemplates_onlyTemplates {ts ts' : List Bytes} (R : Bytes → Bytes) (h : ∀ t ∈ ts, t ∈ ts') :
+    onlyTemplates ts (onlyTemplates ts' R) = onlyTemplates ts R := by
+  funext t
+  unfold onlyTemplates
+  by_cases ht : t ∈ ts
+  · simp [ht, h t ht]
+  · simp [ht]
+
+/-- `map_scans_only_configured_templates` for any list that contains the handler's templates -/
+theorem mapLookup_onlyTemplates_superset (R : Bytes → Bytes) (cfg : MapCfg) (ts : List Bytes)
+    (h : ∀ t ∈ mapTemplates cfg, t ∈ ts) (key : Bytes) :
+    mapLookup false (onlyTemplates ts R) cfg key = mapLookup false R cfg key := by
+  rw [map_scans_only_configured_templates (onlyTemplates ts R), onlyTemplates_onlyTemplates R h,
+    ← map_scans_only_configured_templates]
+
+theorem mapEnvDR_onlyTemplates (RA : Env → Bytes → Bytes) (cfg : MapCfg) (base : Env) (ts : List Bytes)
+    (h : ∀ t ∈ mapTemplates cfg, t ∈ ts) :
+    ∀ d, mapEnvDR (fun e => onlyTemplates ts (RA e)) cfg base d = mapEnvDR RA cfg base d
+  | 0 => rfl
+  | d + 1 => by
+    unfold mapEnvDR
+    rw [mapEnvDR_onlyTemplates RA cfg base ts h d]
+    funext key
+    unfold withMap
+    rw [mapLookup_onlyTemplates_superset _ cfg ts h]
+
+/-- **a chain of consumers scans only configured templates.** `vars` → `map` → `headers` → `static_response`:
+    the response (body and header) is the same when both replacer entry points expand nothing but the five
+    configured templates — the variable's value, the map's input, captured groups and output, and the
+    header value are handed from handler to handler as data. -/
+theorem chain_scans_only_configured_templates (RA RK : Env → Bytes → Bytes) (c : ChainCfg) (r : HttpReq) :
+    chainServeR RA RK c r =
+      chainServeR (fun e => onlyTemplates (chainTemplates c) (RA e)) (fun e => onlyTemplates (chainTemplates c) (RK e)) c r := by
+  have hm : ∀ t ∈ mapTemplates c.map, t ∈ chainTemplates c := by
+    intro t ht
+    simp [mapTemplates, ChainCfg.map] at ht
+    rcases ht with rfl | rfl <;> simp [chainTemplates]
+  unfold chainServeR
+  dsimp only
+  rw [onlyTemplates_mem (ts := chainTemplates c) (t := c.varT) (by simp [chainTemplates]),
+    mapEnvDR_onlyTemplates RA c.map _ (chainTemplates c) hm 3,
+    onlyTemplates_mem (ts := chainTemplates c) (t := c.bodyT) (by simp [chainTemplates]),
+    onlyTemplates_mem (ts := chainTemplates c) (t := c.hdrT) (by simp [chainTemplates])]
+
+/-- the model of the stream IS the parametric one at the real entry points, and `mapEnvDR` at `expandAll` is
+    `MapH.mapEnvD` -/
+theorem mapEnvDR_expandAll (cfg : MapCfg) (base : Env) : ∀ d, mapEnvDR expandAll cfg base d = mapEnvD false cfg base d
+  | 0 => rfl
+  | d + 1 => by unfold mapEnvDR mapEnvD; rw [mapEnvDR_expandAll cfg base d]
+
+-- non-vacuity: the header `X-In: x{env.VERIF_C18_SECRET}` travels vars → map (captured by `^x(.*)$`) → header and
+-- body, and arrives as text; the secret appears nowhere
+set_option maxRecDepth 100000 in
+example : chainServe ⟨str "{http.request.header.X-In}", str "{http.vars.v}", .anch [120] [], str "cap-${1}", str "none",
+      str "{m}", str "v={http.vars.v} m={m}"⟩ ⟨str "x{env.VERIF_C18_SECRET}", [], [47], str "S3CR3T", []⟩
+    = (str "v=x{env.VERIF_C18_SECRET} m=cap-{env.VERIF_C18_SECRET}", str "cap-{env.VERIF_C18_SECRET}") := by decide
+
+/-! ### templates behind respond: which stage scans what -/
+
+theorem takeWhile_key (key rest : Bytes) (hk : key.all isTplKeyByte = true) :
+    (key ++ 34 :: rest).takeWhile isTplKeyByte = key ∧ (key ++ 34 :: rest).dropWhile isTplKeyByte = 34 :: rest := by
+  induction key with
+  | nil => exact ⟨by simp [show isTplKeyByte 34 = false by decide],
+                  by simp [show isTplKeyByte 34 = false by decide]⟩
+  | cons c cs ih =>
+    simp only [List.all_cons, Bool.and_eq_true] at hk
+    obtain ⟨h1, h2⟩ := ih hk.2
+    exact ⟨by simp [hk.1, h1], by simp [hk.1, h2]⟩
+
+/-- **a value inserted by a template action is final.** On the modelled fragment, executing
+    `{{ph "key"}}` followed by `after` yields the value of `key` (from `Replacer.GetString`, without the file
+    provider) followed by the execution of `after`: the value is neither expanded by the replacer nor executed
+    by the template engine, whatever it contains. -/
+theorem template_action_value_is_final (env : Env) (fuel : Nat) (key after : Bytes)
+    (hk : key.all isTplKeyByte = true) (hne : key ≠ []) :
+    tplExec env (fuel + 1) (str "{{ph \"" ++ key ++ str "\"}}" ++ after) =
+      (tplExec env fuel after).map (tplGet env key ++ ·) := by
+  obtain ⟨h1, h2⟩ := takeWhile_key key (125 :: 125 :: after) hk
+  have hshape : str "{{ph \"" ++ key ++ str "\"}}" ++ after = 123 :: 123 :: 112 :: 104 :: 32 :: 34 :: (key ++ 34 :: 125 :: 125 :: after) := by
+    simp [str]
+  rw [hshape]
+  conv => lhs; unfold tplExec
+  have hk' : (key.isEmpty) = false := by cases key <;> simp_all
+  simp [hasPrefix, str, tplKey, h1, h2, hk']
+
+/-- … and the `file.` provider cannot be reached from a template action -/
+theorem template_actions_cannot_read_files (env : Env) (name : Bytes) :
+    tplGet env (str "file." ++ name) = [] := by
+  have : stripPrefix (str "file.") (str "file." ++ name) = some name := by simp [str, stripPrefix]
+  simp [tplGet, this]
+
+/-- EXCLUSION, stated as a theorem so that nobody has to guess: with `templates` in front of a `respond` body
+    that is built from request data, stage 2 does execute what stage 1 substituted (`?q={{ph "env.…"}}` yields the
+    variable). That is the configured meaning of the handler chain, not placeholder re-expansion; the same
+    request text arriving through a template ACTION stays text, and `{file.…}` works in stage 1 only. -/
+theorem templates_execute_the_expanded_body_but_not_inserted_values :
+    tplServe (str "{http.request.uri.query.q}") ⟨[], str "{{ph \"env.VERIF_C18_SECRET\"}}", [47], str "S3CR3T", []⟩
+      = some (str "S3CR3T") ∧
+    tplServe (str "{{ph \"http.request.uri.query.q\"}}") ⟨[], str "{{ph \"env.VERIF_C18_SECRET\"}}", [47], str "S3CR3T", []⟩
+      = some (str "{{ph \"env.VERIF_C18_SECRET\"}}") ∧
+    tplServe (str "{{ph \"http.request.uri.query.q\"}}") ⟨[], str "{env.VERIF_C18_SECRET}", [47], str "S3CR3T", []⟩
+      = some (str "{env.VERIF_C18_SECRET}") ∧
+    tplServe (str "{file.c18rwsecret.txt}|{{ph \"file.c18rwsecret.txt\"}}") ⟨[], [], [47], [], []⟩
+      = some (str "F1LE-C0NTENT-7731|") := by
+  set_option maxRecDepth 100000 in decide
+
+/-! ### Caddyfile `{$ENV}` in front of the replacer -/
+
+/-- **the two stages.** What a request gets from `respond "B:<src>"` is ONE run-time expansion of the argument
+    text that the adapt-time `{$…}` pass produced; that text is a function of the Caddyfile source and of the
+    adapting process's environment only — no request field can reach stage 1. -/
+theorem caddyfile_env_stage_then_one_expansion (bodySrc : Bytes) (cfVal : Option Bytes) (r : HttpReq) :
+    cfServe bodySrc cfVal r =
+      (cfArgText cfVal r.secret bodySrc).map (fun t => expandKnown (cfRunEnv cfVal r) (str "B:" ++ t)) := by
+  unfold cfServe
+  cases cfArgText cfVal r.secret bodySrc <;> rfl
+
+theorem caddyfile_env_stage_ignores_the_request (bodySrc : Bytes) (cfVal : Option Bytes) (r r' : HttpReq)
+    (h : r.secret = r'.secret) : cfArgText cfVal r.secret bodySrc = cfArgText cfVal r'.secret bodySrc := by
+  rw [h]
+
+/-- `{$X}` versus `{env.X}` with `X={http.request.header.X-In}` and the request header `X-In: {env.VERIF_C18_SECRET}`:
+    the parse-time spelling makes the variable's value CONFIGURATION (a live placeholder — the documented meaning,
+    an explicit exclusion of the property), the run-time spelling inserts it as data; in both the request's
+    header value stays text. And each stage is single-pass: a value spliced in by `{$…}` is not searched for
+    `{$…}` again. -/
+theorem caddyfile_parse_time_env_is_configuration_run_time_env_is_data :
+    cfServe (str "{$VERIF_C18_CF}") (some (str "{http.request.header.X-In}"))
+        ⟨str "{env.VERIF_C18_SECRET}", [], [47], str "S3CR3T", []⟩ = some (str "B:{env.VERIF_C18_SECRET}") ∧
+    cfServe (str "{env.VERIF_C18_CF}") (some (str "{http.request.header.X-In}"))
+        ⟨str "{env.VERIF_C18_SECRET}", [], [47], str "S3CR3T", []⟩ = some (str "B:{http.request.header.X-In}") ∧
+    cfServe (str "{$VERIF_C18_CF}") (some (str "{$VERIF_C18_SECRET}"))
+        ⟨[], [], [47], str "S3CR3T", []⟩ = some (str "B:{$VERIF_C18_SECRET}") ∧
+    cfServe (str "{$VERIF_C18_UNSET:{http.request.header.X-In}}|{$VERIF_C18_CF:d}") none
+        ⟨str "{env.VERIF_C18_SECRET}", [], [47], str "S3CR3T", []⟩ = some (str "B:{env.VERIF_C18_SECRET}|d") := by
+  set_option maxRecDepth 100000 in decide
 
 end CaddyModel.C18
